@@ -76,7 +76,9 @@ func runC04(r *mc.Run) {
 	// quotes 4 and 5 carry SVNs >= 0x80 / PCESVN >= 0x8000 (signedness); quotes 6 and 7 come with a PCK certificate whose
 	// opaque CPUSVN octet string does not repeat the sixteen component values (all 0xFF / all zero): levels are
 	// compared with the components
-	svn1s := []byte{0, 1, 3, 0x0a, 0, 0x83, 0, 3}
+	// quotes 8 and 9: the PCK certificate lists its 18 TCB elements in reversed / rotated order (values are bound to
+	// their object identifiers, not to positions)
+	svn1s := []byte{0, 1, 3, 0x0a, 0, 0x83, 0, 3, 0, 3}
 	// one quote per TEE_TCB_SVN[1] value (everything else shared)
 	type qv struct {
 		w   *world.World
@@ -93,6 +95,14 @@ func runC04(r *mc.Run) {
 			w.Plat.CPUSVNBlob = bytes.Repeat([]byte{0xff}, 16)
 		case 7:
 			w.Plat.CPUSVNBlob = make([]byte, 16)
+		case 8:
+			for k := 17; k >= 0; k-- {
+				w.Plat.TcbOrder = append(w.Plat.TcbOrder, k)
+			}
+		case 9:
+			for k := 0; k < 18; k++ {
+				w.Plat.TcbOrder = append(w.Plat.TcbOrder, (k+7)%18)
+			}
 		}
 		if high {
 			w.Plat.CPUSVN = [16]byte{0x85, 0xfe, 0x80, 0x81, 0x90, 0xa0, 0xb0, 0xc0, 0xd0, 0xe0, 0xf0, 0x88, 0x99, 0xaa, 0xbb, 0x84}
@@ -331,13 +341,13 @@ func runC04(r *mc.Run) {
 	// full product of the first two levels (pattern x status) x module status class, for svn1 in {0, 3}
 	type prod struct{ qi, l1p, l1s, l2p, l2s, ms int }
 	var prods []prod
-	for _, qi := range []int{0, 2, 4, 5, 6, 7} {
+	for _, qi := range []int{0, 2, 4, 5, 6, 7, 8, 9} {
 		for l1p := range c04Patterns {
 			for l1s := range statuses {
 				for l2p := range c04Patterns {
 					for l2s := range classes {
 						for _, ms := range []int{0, 4} {
-							if (qi == 0 || qi == 4 || qi == 6) && ms != 0 {
+							if (qi == 0 || qi == 4 || qi == 6 || qi == 8) && ms != 0 {
 								continue
 							}
 							prods = append(prods, prod{qi, l1p, l1s, l2p, l2s, ms})
